@@ -1,0 +1,80 @@
+//go:build verif
+
+package timecache
+
+import (
+	"time"
+
+	logger "github.com/multiversx/mx-chain-logger-go"
+)
+
+// This file is compiled only with the build tag "verif". It adds accessors for the verification
+// harness and changes no existing behaviour.
+
+// VerifShiftTimestamps moves every stored timestamp back by d, under the core's mutex.
+// For the harness "the clock advanced by d" is the same as "every entry is d older".
+func (tcc *timeCacheCore) VerifShiftTimestamps(d time.Duration) {
+	tcc.Lock()
+	defer tcc.Unlock()
+
+	for _, e := range tcc.data {
+		e.timestamp = e.timestamp.Add(-d)
+	}
+}
+
+// VerifKeys returns the stored keys (map order).
+func (tcc *timeCacheCore) VerifKeys() [][]byte {
+	tcc.RLock()
+	defer tcc.RUnlock()
+
+	keys := make([][]byte, 0, len(tcc.data))
+	for k := range tcc.data {
+		keys = append(keys, []byte(k))
+	}
+	return keys
+}
+
+// VerifEntry returns the span and the age (time.Since(timestamp)) of a stored key.
+func (tcc *timeCacheCore) VerifEntry(key string) (span time.Duration, age time.Duration, ok bool) {
+	tcc.RLock()
+	defer tcc.RUnlock()
+
+	e, found := tcc.data[key]
+	if !found {
+		return 0, 0, false
+	}
+	return e.span, time.Since(e.timestamp), true
+}
+
+// VerifSweep runs the same sweep the background goroutine of timeCacher runs.
+func (tcc *timeCacheCore) VerifSweep() {
+	tcc.sweep()
+}
+
+// VerifCore is the set of accessors above.
+type VerifCore interface {
+	VerifShiftTimestamps(d time.Duration)
+	VerifKeys() [][]byte
+	VerifEntry(key string) (span time.Duration, age time.Duration, ok bool)
+	VerifSweep()
+}
+
+// VerifCore returns the core of a TimeCache.
+func (tc *TimeCache) VerifCore() VerifCore { return tc.timeCache }
+
+// VerifCore returns the core of a timeCacher.
+func (tc *timeCacher) VerifCore() VerifCore { return tc.timeCache }
+
+// VerifCore returns the core of the TimeCache wrapped by a peerTimeCache (nil if it wraps something else).
+func (ptc *peerTimeCache) VerifCore() VerifCore {
+	inner, ok := ptc.timeCache.(*TimeCache)
+	if !ok {
+		return nil
+	}
+	return inner.timeCache
+}
+
+// VerifSilenceLog turns the package logger off (Close and rejected keys log to stdout otherwise).
+func VerifSilenceLog() {
+	_ = logger.SetLogLevel("*:NONE")
+}
